@@ -1417,36 +1417,103 @@ func runKwayOrder(c *Ctx, r *RuleRun) {
 		})
 		return res
 	}
+	// Less(i, j) must be: c < 0, or c == 0 and LI(i) < LI(j), with c = CompareKeys(h[i].Key, h[j].Key). Every return is
+	// judged under what the branches on c establish (a subset of {<, =, >}), whatever the control flow looks like.
 	okKey, okTie := false, false
+	allValid := true
+	isC := func(v ssa.Value) (flipped, ok bool) {
+		call := callTo(p, v, cmpKeys)
+		if call == nil {
+			return false, false
+		}
+		a0, a1 := idxOf(call.Call.Args[0]), idxOf(call.Call.Args[1])
+		switch {
+		case a0 == 1 && a1 == 2:
+			return false, true
+		case a0 == 2 && a1 == 1:
+			return true, true
+		}
+		return false, false
+	}
+	allow := map[string][]string{"<": {"<"}, "<=": {"<", "="}, "==": {"="}, "!=": {"<", ">"}, ">=": {"=", ">"}, ">": {">"}}
 	eachInstr(less, func(ins ssa.Instruction) {
 		ret, ok := ins.(*ssa.Return)
-		if !ok {
+		if !ok || len(ret.Results) != 1 {
 			return
 		}
-		bo, ok := retOperand(ret, 0).(*ssa.BinOp)
-		if !ok {
-			return
-		}
-		// cmp < 0 with cmp = CompareKeys(h[i].Key, h[j].Key)
-		if call := callTo(p, bo.X, cmpKeys); call != nil {
-			k, isK := constInt(bo.Y)
-			if bo.Op == token.LSS && isK && k == 0 && idxOf(call.Call.Args[0]) == 1 && idxOf(call.Call.Args[1]) == 2 {
-				okKey = true
+		rel := map[string]bool{"<": true, "=": true, ">": true}
+		for _, f0 := range factsAt(ret) {
+			for _, cm := range []Cmp{f0, f0.Flip()} {
+				if cm.Y == nil {
+					continue
+				}
+				k, isK := constInt(cm.Y)
+				fl, isc := isC(cm.X)
+				if !isK || k != 0 || !isc {
+					continue
+				}
+				op := cm.Op
+				if fl {
+					op = flipCmp(op)
+				}
+				next := map[string]bool{}
+				for _, a := range allow[op] {
+					if rel[a] {
+						next[a] = true
+					}
+				}
+				rel = next
+				break
 			}
+		}
+		only := func(w string) bool { return len(rel) == 1 && rel[w] }
+		v := retOperand(ret, 0)
+		switch {
+		case isConstBool(v, true):
+			if only("<") {
+				okKey = true
+			} else {
+				allValid = false
+			}
+			return
+		case isConstBool(v, false):
+			if !only(">") {
+				allValid = false
+			}
+			return
+		}
+		bo, ok := v.(*ssa.BinOp)
+		if !ok {
+			allValid = false
+			return
+		}
+		if fl, isc := isC(bo.X); isc {
+			k, isK := constInt(bo.Y)
+			op := bo.Op.String()
+			if fl {
+				op = flipCmp(op)
+			}
+			// `return c < 0` is the whole answer only where c == 0 is excluded
+			if isK && k == 0 && op == "<" && !rel["="] {
+				if rel["<"] {
+					okKey = true
+				}
+			} else {
+				allValid = false
+			}
+			return
 		}
 		if fv, _ := loadedField(bo.X); fv == li {
 			fy, _ := loadedField(bo.Y)
-			if fy == li && ((bo.Op == token.LSS && idxOf(bo.X) == 1 && idxOf(bo.Y) == 2) || (bo.Op == token.GTR && idxOf(bo.X) == 2 && idxOf(bo.Y) == 1)) {
-				// only when the keys are equal
-				if hasFact(ret, func(cm Cmp) bool {
-					k, isK := constInt(cm.Y)
-					return cm.Op == "==" && cm.Y != nil && isK && k == 0 && callTo(p, cm.X, cmpKeys) != nil
-				}) {
-					okTie = true
-				}
+			if fy == li && ((bo.Op == token.LSS && idxOf(bo.X) == 1 && idxOf(bo.Y) == 2) || (bo.Op == token.GTR && idxOf(bo.X) == 2 && idxOf(bo.Y) == 1)) && only("=") {
+				okTie = true
+				return
 			}
 		}
+		allValid = false
 	})
+	okKey = okKey && allValid
+	okTie = okTie && allValid
 	r.Check(okKey, p.FnName(less), "orders by CompareKeys", p.Pos(less.Pos()), "Less(i,j) = CompareKeys(h[i].Key, h[j].Key) < 0 for different keys", "the merge heap does not order by CompareKeys(h[i].Key, h[j].Key) < 0")
 	r.Check(okTie, p.FnName(less), "ties by list index ascending", p.Pos(less.Pos()), "equal keys pop in list order, the newest list last", "equal keys are not popped in ascending list index: the entry of an older list overwrites the one of a newer list")
 	// MergeVersions: every popped entry is written into the result map under its key (last write wins)
